@@ -20,11 +20,19 @@ def run(ctx):
                       "(OP/STRICT: tag empty; DQ: tag != single quote; DQB: also != backslash)")
     ctx.rule("R01-2", "the argv operand of execve derives from cmd.tokens by iter().map(field 1) with no "
                       "lossy adaptor (filter/skip/take/step_by/rev/dedup/...)")
+    ctx.rule("R01-4", "the tokenizer and the list splitter look characters up in the index space their cursor counts in: "
+                      "the counter of chars().enumerate() is never used as a byte offset (as_bytes()[i], &line[i..]), so a "
+                      "multi-byte character in an argument cannot shift the look-ahead that recognises operators")
     ctx.rule("R01-3", "tokenizer: when a backslash escapes a character that a later pass acts on inside an untagged word "
                       "($ * ~ { } , & ` !), the escape is remembered (a quote tag is set, or the backslash is kept); "
                       "otherwise the escaped character is indistinguishable from an unescaped one and is acted on")
     for crate in ctx.crates:
         escape_rule(ctx, crate)
+        from .. import ispace
+        n = ispace.rule(ctx, crate, "R01-4", ["parsers::parser_line::parse_line", "parsers::parser_line::line_to_cmds"])
+        ctx.require(crate.fn("parsers::parser_line::parse_line") is not None and
+                    crate.fn("parsers::parser_line::line_to_cmds") is not None, "R01-4", "R01-4|anchor",
+                    "parse_line / line_to_cmds not found")
         res = etag.run_sites(ctx, "R01-1", crate)
         ctx.floor("R01-1", crate, "token-text inspections", len(res), FLOOR_SITES)
         argv_rule(ctx, crate)
